@@ -515,8 +515,10 @@ def _submit_loop(executor_ref):
 
         if job.stop_retry:
             executor._log.debug("Discarding job due to cancel: %s", job)
-            executor._pop_job(job)
+            # Resolve the future before forgetting the job, so that a
+            # concurrent cancel() finds either the job or a finished future.
             copy_future(job.old_delegate, job.future)
+            executor._pop_job(job)
             continue
 
         now = monotonic()
